@@ -1,4 +1,5 @@
 import SpecKitV.Lemmas.Chunking
+import SpecKitV.Props.NoiseGen
 
 #print axioms Model.sectionRun_append
 #print axioms Model.sectionRun_length
@@ -11,3 +12,6 @@ import SpecKitV.Lemmas.Chunking
 #print axioms Model.white_sample_runs
 #print axioms sectionRun_direct_form
 #print axioms sectionRun_first
+#print axioms gen_section_loop
+#print axioms gen_cascade_eq_model
+#print axioms gen_cascade_chunking
